@@ -96,6 +96,8 @@ def _bucket_locals(ctx, b):
             k = "B"
         elif t.get("adt") == "hashbrown::raw::Bucket":
             k = "raw"
+        elif t.get("adt") in ctx.roles.handles:
+            k = "handle"     # an occupied-entry handle carries a located bucket
         if k and l > b.arg_count:
             out[l] = k
     return out
